@@ -70,7 +70,7 @@ same("C05", "newmark-rewrite", E + "Simulations/_simu.py", "            ut_np1 =
 # ---------------------------------------------------------------- C03 / C04
 mut("C03", "blocked-dofs", E + "FEM/_group_elem.py", "assembly[:, columns] = np.array(connect) * dof_n + d", "assembly[:, columns] = np.array(connect) + d * 1000", "_Get_assembly_e")
 mut("C03", "rows-cols-swap", E + "FEM/_group_elem.py", "        rowsVector_e = np.repeat(assembly_e, nPe * dof_n).reshape((Ne, ndof2))", "        rowsVector_e = np.repeat(assembly_e, nPe * dof_n, axis=0).reshape((Ne, ndof2))", "Get_rows_e")
-mut("C03", "data-unfiltered", E + "Simulations/_simu.py", "data = np.concatenate([dict_group_data[g].ravel() for g in groups])", "data = np.concatenate([X_e.ravel() for X_e in dict_group_data.values() if X_e is not None and X_e.size])", "__Assemble_csr")
+same("C03", "data-unfiltered-equivalent", E + "Simulations/_simu.py", "data = np.concatenate([dict_group_data[g].ravel() for g in groups])", "data = np.concatenate([X_e.ravel() for X_e in dict_group_data.values() if X_e is not None and X_e.size])")  # empty arrays contribute nothing either way: the structural rule that flagged this was a false alarm
 mut("C03", "slot-swap", E + "Simulations/_simu.py", "            {g: KCMF[1] for g, KCMF in dict_KCMF.items()}, dof_n, Ndof, True\n        )\n        tic.Tac(\"Matrix\", f\"Assemble the C matrix", "            {g: KCMF[2] for g, KCMF in dict_KCMF.items()}, dof_n, Ndof, True\n        )\n        tic.Tac(\"Matrix\", f\"Assemble the C matrix", "Assembly")
 mut("C04", "known-unknown-swap", E + "Simulations/Solvers.py", "    dofsKnown, dofsUnknown = simu.Bc_dofs_known_unknown(problemType)\n\n    ownedDofs = None", "    dofsUnknown, dofsKnown = simu.Bc_dofs_known_unknown(problemType)\n\n    ownedDofs = None", "__Solver_1")
 mut("C04", "rhs-sign", E + "Simulations/Solvers.py", "    bi -= Aic @ xc\n", "    bi += Aic @ xc\n", "__Solver_1")
@@ -251,6 +251,9 @@ same("C18", "build-de-reorder", E + "Models/HyperElastic/_state.py", "          
 mut("C19", "jacobian-increment", E + "Models/InElastic/_behavior.py", "                J_e_pg[..., Bi, nz] = -(N_e_pg - component.recall * z_e_pg[..., Bi])", "                J_e_pg[..., Bi, nz] = -(N_e_pg - component.recall * u_e_pg[..., Bi])", "R19.11")
 same("C19", "jacobian-rewrite", E + "Models/InElastic/_behavior.py", "                J_e_pg[..., Bi, nz] = -(N_e_pg - component.recall * z_e_pg[..., Bi])", "                J_e_pg[..., Bi, nz] = component.recall * z_e_pg[..., Bi] - N_e_pg")
 mut("C17", "trace-selector-swapped", E + "Models/_phasefield.py", "        Rp_e_pg = (1 + np.sign(trace)) / 2\n        Rm_e_pg = (1 + np.sign(-trace)) / 2", "        Rp_e_pg = (1 + np.sign(-trace)) / 2\n        Rm_e_pg = (1 + np.sign(trace)) / 2", "R17.8")
+
+mut("C03", "csr-data-order", E + "Simulations/_simu.py", "data = np.concatenate([dict_group_data[g].ravel() for g in groups])", "data = np.concatenate([dict_group_data[g].ravel() for g in reversed(groups)])", "R3.9")
+mut("C03", "csr-minlength", E + "Simulations/_simu.py", "            csr_data = np.bincount(inv, weights=data, minlength=nnz)\n", "            csr_data = np.bincount(inv[:-1], weights=data[:-1], minlength=nnz)\n", "R3.9")
 
 
 def rename_locals_edit(repo_root, qualname):
